@@ -10,7 +10,7 @@ import editor
 
 
 def main(ctx, args):
-    n, steps = (160, 30) if ctx.quick else (4000, 40)
+    n, steps = (640, 30) if ctx.quick else (8000, 40)
     return editor.ex_check(ctx, "C06", "lines", n, steps,
         "scripts = seeded pseudo-random prompt lines built from the model state (addresses in, at and out of range; marks; "
         "patterns; registers; text blocks incl. empty and multi-byte); one evaluation = one prompt line compared; "
